@@ -156,13 +156,14 @@ def copyDocs (sh : Shard) : List Doc → Option Nat → Builder → Option Build
         | none => none
         | some b2 => copyDocs sh ds (some d.repo) b2
 
-/-- stable insertion of a shard into a list sorted by descending priority of the first repository
-    (`sort.Slice` with `prio[i] > prio[j]`; stable for the ≤ 12 inputs the harness uses) -/
+/-- stable sort by descending priority of the first repository: the head of the list precedes the rest, so it is
+    inserted in front of the first element that does not have a strictly higher priority
+    (`sort.Slice` with `prio[i] > prio[j]`; it is an insertion sort, hence stable, for the ≤ 12 inputs the harness uses) -/
 def firstPrio (sh : Shard) : Int := match sh.repos with | r :: _ => r.prio | [] => 0
 
 def insertByPrio (sh : Shard) : List Shard → List Shard
   | [] => [sh]
-  | x :: xs => if firstPrio sh > firstPrio x then sh :: x :: xs else x :: insertByPrio sh xs
+  | x :: xs => if firstPrio sh ≥ firstPrio x then sh :: x :: xs else x :: insertByPrio sh xs
 
 def sortByPrio : List Shard → List Shard
   | [] => []
